@@ -114,6 +114,7 @@ def main():
     if a.replay:
         rp, o = native(json.load(open(a.replay))['case']); print(o); sys.exit(1 if rp else 0)
     rep = R.Report('C20', a.tier, seed); timeout = solve.TIMEOUT_MS[a.tier]
+    R.prefetch_native('props.c20_native', ['bounded', str(seed), a.tier])      # the stand-in runs while the obligations are discharged
     npaths = 0
     for ok in ('str', 'Path'): npaths += run_contract(rep, timeout, ok)
     rep.cover('all four user-function outcomes explored', npaths >= 8)
